@@ -137,6 +137,16 @@ def header(classes):
           "  static int route(int a, int b = 5, int c = 6) { return a * 100 + b * 10 + c; }\n  static int route(const Mixer &m, int b) { return -(m._calls * 10 + b); }\n"
           "  int get_level() const { return _level; }\n  int get_calls() const { return _calls; }\n"
           "public:\n  int _level;\n  int _calls;\n};\n")
+    # zero-argument const / non-const overload pairs (which one runs depends on the constness of the object alone); overloads of one arity in
+    # which the argument that needs a converting constructor comes after a class argument that needs none
+    h += ("class Shelf {\nPUBLISHED:\n  Shelf() : _hits(0) {}\n  int peek() { ++_hits; return 1; }\n  int peek() const { return 2; }\n"
+          "  Shelf &front() { ++_hits; return *this; }\n  const Shelf &front() const { return *this; }\n  const Shelf &as_const() const { return *this; }\n"
+          "  int get_hits() const { return _hits; }\npublic:\n  int _hits;\n};\n"
+          "class Pt2 {\nPUBLISHED:\n  Pt2() : _v(0) {}\n  Pt2(int v) : _v(v) {}\n  Pt2(const Pt2 &o) : _v(o._v) {}\n  int get_v() const { return _v; }\npublic:\n  int _v;\n};\n"
+          "class Layer {\nPUBLISHED:\n  Layer() {}\n  Layer(const Layer &) {}\n  int id() const { return 7; }\n};\n"
+          "class Canvas {\nPUBLISHED:\n  Canvas() {}\n  int stamp(const Layer &l, const Pt2 &p) const { return 100 + p.get_v(); }\n  int stamp(const Layer &l, const Layer &m) const { return 200; }\n"
+          "  int mark(const Pt2 &p, const Layer &l) const { return 300 + p.get_v(); }\n  int mark(const Layer &a, const Layer &b) const { return 400; }\n"
+          "  static int measure(const Layer &l, int k, const Pt2 &p) { return 500 + k + p.get_v(); }\n  static int measure(const Layer &l, int k, const Layer &m) { return 600 + k; }\n};\n")
     h += "BEGIN_PUBLISH\nenum GlobalMode { GM_on = 1, GM_off = 2 };\nint gmode(GlobalMode m);\nint count_live();\n" + "".join("int takes_%s(const %s &o);\n" % (c.name.lower(), c.name) for c in classes) + "END_PUBLISH\n#endif\n"
     impl = '#include "t.h"\nint g_live = 0;\nint count_live() { return g_live; }\nint gmode(GlobalMode m) { return (int)m * 3; }\nint tag_n(const Tag &t) { return t.get_n(); }\n' + "".join("const int %s::limit_%s;\n" % (c.name, c.name.lower()) for c in classes) + "".join("int takes_%s(const %s &o) { return o.who(); }\n" % (c.name.lower(), c.name) for c in classes)
     return h, impl
@@ -275,6 +285,19 @@ def test_script(classes, rng, modname="tmod"):
              "and raises(TypeError, m.tag_n, (0.5, 1.0)) is True and raises(TypeError, t.merge, (0.5, 1.0)) is True and t.get_n() == before, "
              "(raises(TypeError, m.tag_n, %s), raises(TypeError, t.merge, %s), raises(TypeError, m.tag_n, (0.5, 1.0)), t.get_n(), before))" % (bad, bad, bad, bad))
     L.append("chk('Tag accepted where a Tag is expected', m.tag_n(m.Tag(7)) == 1007)")
+    L += ["def got(f, *a):", "    try:", "        return f(*a)", "    except BaseException as e:", "        return 'raised ' + type(e).__name__",
+          "sh = m.Shelf(); csh = sh.as_const()",
+          "chk('zero-argument overload pair on a non-const object', (got(sh.peek), sh.get_hits()) == (1, 1), (got(sh.peek), sh.get_hits()))",
+          "h0 = sh.get_hits()",
+          "chk('zero-argument overload pair on a const object', (got(csh.peek), got(csh.peek), sh.get_hits()) == (2, 2, h0), (got(csh.peek), sh.get_hits(), h0))",
+          "fr = got(csh.front); chk('const front() on a const object leaves it alone', hasattr(fr, 'get_hits') and sh.get_hits() == h0, (fr, sh.get_hits(), h0))",
+          "fr = got(sh.front); chk('front() on a non-const object runs the non-const overload', hasattr(fr, 'get_hits') and sh.get_hits() == h0 + 1, (fr, sh.get_hits(), h0))",
+          "cv = m.Canvas(); ly = m.Layer()",
+          "chk('converting constructor after a class argument', (got(cv.stamp, ly, 5), got(cv.stamp, ly, m.Pt2(6)), got(cv.stamp, ly, ly)) == (105, 106, 200), (got(cv.stamp, ly, 5), got(cv.stamp, ly, m.Pt2(6)), got(cv.stamp, ly, ly)))",
+          "chk('converting constructor before a class argument', (got(cv.mark, 5, ly), got(cv.mark, ly, ly)) == (305, 400), (got(cv.mark, 5, ly), got(cv.mark, ly, ly)))",
+          "chk('converting constructor as third argument of a static method', (got(m.Canvas.measure, ly, 1, 9), got(m.Canvas.measure, ly, 2, ly)) == (510, 602), (got(m.Canvas.measure, ly, 1, 9), got(m.Canvas.measure, ly, 2, ly)))",
+          "chk('no conversion from an unrelated object', got(cv.stamp, ly, 'text') == 'raised TypeError', got(cv.stamp, ly, 'text'))",
+          "del sh, csh, fr, cv, ly"]
     L.append("del t")
     # ---- helper objects of map / sequence properties own exactly one reference to their object ---------------------------------------------
     L += ["gc.collect(); base = m.count_live()",
